@@ -62,16 +62,22 @@ TOPOLOGIES = {
     't1silentdir': [('PD', False, False)],
     't2silentdir': [('PD', False, False), ('PD', True, False)],
     't2absent': [('A', False, False), ('n', True, False)],
+    # 'K...': the policy file is a SYMBOLIC LINK to a revision file kept next
+    # to it; an edit writes the next revision and re-points the link
+    # atomically (config-management / mounted-volume layouts)
+    't1link': [('K', False, False)],
+    't2link': [('K', False, False), ('K', True, True)],
 }
 BOUNDS = {
     'quick': [('t1', 8), ('t1late', 8), ('t2own', 6), ('t2shared', 8),
               ('t2late', 6), ('t3', 4), ('t1absent', 7), ('t2absent', 5), ('t1silent', 6),
               ('t1silentdir', 6), ('t2silentdir', 4), ('t1maindir', 6),
-              ('t2maindir', 4)],
+              ('t2maindir', 4), ('t1link', 6), ('t2link', 4)],
     'thorough': [('t1', 12), ('t1late', 12), ('t2own', 14), ('t2shared', 14),
                  ('t2late', 14), ('t3', 8), ('t1absent', 12),
                  ('t2absent', 10), ('t1silent', 12), ('t1silentdir', 12),
-                 ('t2silentdir', 8), ('t1maindir', 12), ('t2maindir', 8)],
+                 ('t2silentdir', 8), ('t1maindir', 12), ('t2maindir', 8),
+                 ('t1link', 12), ('t2link', 8)],
 }
 
 
@@ -140,8 +146,11 @@ class System:
                     self.w.write('%s/p[d]/b.yaml' % d, world.dumps_policy(
                         {'svc:plain': 'role:fb', 'svc:new': 'role:fb'},
                         'json'))
-                self.w.write(rel_of(d),
-                             world.dumps_policy(FILES['x0'], 'json'))
+                if d.startswith('K'):
+                    self._point_link(d, 'x0')
+                else:
+                    self.w.write(rel_of(d),
+                                 world.dumps_policy(FILES['x0'], 'json'))
                 self.content[d] = 'x0'
         self.enfs = []
         self.registered = []
@@ -155,6 +164,17 @@ class System:
                 e.register_defaults(self.shared)
             self.enfs.append(e)
             self.registered.append(not late)
+
+    def _point_link(self, d, cid):
+        """Write revision file <cid> afresh and make policy.yaml a symbolic
+        link to it (replacing the previous link in one rename)."""
+        rev = '%s/rev-%s.json' % (d, cid)
+        self.w.write(rev, world.dumps_policy(FILES[cid], 'json'))
+        link = self.w.path('%s/policy.yaml' % d)
+        tmp = link + '.new'
+        os.symlink(os.path.basename(self.w.path(rev)), tmp)
+        os.replace(tmp, link)
+        self.w._apply()
 
     def make(self, d, end):
         conf = world.new_conf(self.w.path(d),
@@ -210,7 +230,11 @@ class System:
             loaded = True
         elif kind == 'edit':
             nxt = 'x1' if self.content[d] == 'x0' else 'x0'
-            self.w.write(rel_of(d), world.dumps_policy(FILES[nxt], 'json'))
+            if d.startswith('K'):
+                self._point_link(d, nxt)
+            else:
+                self.w.write(rel_of(d),
+                             world.dumps_policy(FILES[nxt], 'json'))
             self.content[d] = nxt
             for j, (dj, _, _) in enumerate(self.topo):
                 if dj == d:
